@@ -1,22 +1,26 @@
 ---- MODULE TraceAuth ----
-(* C06 as a monitor over traces of REAL nodes (harness/adapters/auth).  Every Offer line is one real signed
-   transaction (the case a[1] of Auth.tla instantiated with real keys and the real signing hashes) handed to a real
-   mining node; every Validate line is the block with that transaction (the miner's own block, or the block a
-   dishonest deputy would publish when the miner refused) handed to a second real node.  Logged are the REAL
-   registered signers of the sender / payer account before the step (cfg, pcfg), what the node did (packaged, ok,
-   stored) and what changed in the real account state (balance deltas of sender S, signed recipient To, tampered
-   recipient Other, payer P, box sender W, the account P2 a tampered gasPayer names; vote / signers changed).
-   The case also says who is named as gas payer (another account / the sender account itself in the reimbursed form)
-   and, for a box, whether its JSON data was re-written after the box sender signed (other sub-transaction, forged
-   "hash" member); Authorized covers both: the gas terms need signatures of the payer's holders made after the last
-   change, the box sender must have signed exactly the sub-transaction that is carried.
+(* C06 as a monitor over traces of REAL nodes (harness/adapters/auth).  Every Offer / OfferStale line is one real signed
+   transaction (the case a[1] of Auth.tla instantiated with real keys and the real signing hashes: every signature made
+   with the key, in the scheme, on the content - before / after the change - and for the gasPayer member - absent, the
+   sender, another account - the case names) handed to a real mining node; every Validate line is the block with that
+   transaction (the miner's own block, or the block a dishonest deputy would publish when the miner refused) handed to a
+   second real node; a Stabilise line is the head block confirmed by enough deputies on both nodes.  Logged are the REAL
+   registered signers of the sender / payer account before the step (cfg, pcfg) and in the last stable block (scfg), what
+   the node did (packaged, ok, stored) and what changed in the real account state (balance deltas of sender S, signed
+   recipient To, tampered recipient Other, the other account P, box sender W, the second other account Q = P2; vote /
+   signers changed).
+   Authorized: the gas terms need signatures of the holders of the account that PAYS (the sender's own, in the default
+   form, when it pays itself), made after the last change they cover; every sender signature must have been made in the
+   scheme of the transaction's form and cover the gasPayer member as submitted; the box sender must have signed exactly
+   the sub-transaction that is carried.  The signers that count are those registered NOW, not those of the stable block.
    Demanded:   any effect  =>  Authorized (Auth.tla) for the signers registered before the step;
                Canonical /\ Authorized /\ well-formed  =>  packaged / accepted  (the check is not vacuous);
-               the effect, when there is one, is that of the submitted content; a refusal changes nothing. *)
+               the effect, when there is one, is that of the submitted content (paid by the account the submitted
+               gasPayer member makes pay); a refusal changes nothing. *)
 EXTENDS Auth, TraceBase
 CONSTANT AllowedDev
 VARIABLE pend          \* the Offer line awaiting its Validate
-tvars == <<cfg, phase, cur, acc, pend, l>>
+tvars == <<cfg, scfg, phase, cur, acc, pend, l>>
 DevKey == "Dev_MultisigCountsRepeatedSigner"
 \* the case, judged against the payer signers that are really registered
 CaseOf(e) == [e.a[1] EXCEPT !.pcfg = e.pcfg]
@@ -28,23 +32,30 @@ Changed(e, k) == e.dS # 0 \/ e.dTo # 0 \/ e.dOther # 0 \/ e.dP # 0 \/ e.dW # 0 \
 ExecKind(c) == IF c.f = "type" THEN (IF c.kind = "transfer" THEN "vote" ELSE "transfer") ELSE c.kind
 \* what executing the SUBMITTED content does (o: the Offer line, e: the line with the deltas, k: signers before)
 EffectOf(c, o, e, k) ==
-  LET moved == IF ExecKind(c) = "transfer" THEN o.amount ELSE 0 IN
+  LET moved == IF ExecKind(c) = "transfer" THEN o.amount ELSE 0
+      pa == PayerAcct(c.gp) IN                              \* the account the submitted gasPayer member makes pay
   /\ e.dOther = moved /\ e.dTo = (IF o.sameTo THEN moved ELSE 0)
-  /\ IF PaidBySender(c) THEN e.dS < 0 - moved /\ e.dP = 0 ELSE e.dS = 0 - moved /\ e.dP < 0   \* (P: the other account that pays, else P2)
-  /\ e.dP2 = (IF PaidBySender(c) THEN e.dP ELSE 0)
+  /\ IF pa = "S" THEN e.dS < 0 - moved ELSE e.dS = 0 - moved
+  /\ IF pa = "P" THEN e.dP < 0 ELSE e.dP = 0
+  /\ IF pa = "Q" THEN e.dP2 < 0 ELSE e.dP2 = 0
   /\ (c.box = "none" => e.dW = 0)                      \* (a box is paid for by its sender, who signed it)
   /\ e.vote = (ExecKind(c) = "vote")
   /\ e.cfg2 = (IF c.kind = "signers" THEN (IF c.f = "data" THEN <<100, 100, 100>> ELSE c.ncfg) ELSE k)
 TReset == /\ Ev("reset")
-          /\ cfg' = E.cfg /\ phase' = 0 /\ cur' = NoCase /\ acc' = FALSE /\ pend' = <<>>
-TOffer == /\ Ev("Offer") /\ phase = 0
+          /\ cfg' = E.cfg /\ scfg' = E.scfg /\ phase' = 0 /\ cur' = NoCase /\ acc' = FALSE /\ pend' = <<>>
+\* name = "Offer": the account's signers are those of the last stable block | "OfferStale": they were replaced since (E.scfg: the
+\* signers in the stable block, recorded; the judgement is against the signers registered now, whatever the stable block says)
+THanded(name) ==
+          /\ Ev(name) /\ phase = 0
           /\ LET c == CaseOf(E)  k == E.cfg IN
              /\ E.ntx = (IF E.packaged THEN 1 ELSE 0)
              /\ (E.packaged \/ Changed(E, k) => AuthOrDev(k, c))              \* an effect only if authorised
              /\ (Canonical(k, c) /\ Authorized(k, c) /\ E.intake => E.packaged) \* honest transactions are not refused
              /\ (E.packaged => E.intake /\ EffectOf(c, E, E, k))               \* the effect is that of the submitted content
              /\ (~E.packaged => ~Changed(E, k))                               \* a refused transaction changes nothing
-             /\ phase' = 1 /\ cur' = c /\ acc' = E.packaged /\ cfg' = k /\ pend' = E
+             /\ phase' = 1 /\ cur' = c /\ acc' = E.packaged /\ cfg' = k /\ pend' = E /\ scfg' = E.scfg
+TOffer == THanded("Offer")
+TOfferStale == THanded("OfferStale")
 TValidate == /\ Ev("Validate") /\ phase = 1
              /\ E.mode = (IF acc THEN "honest" ELSE E.mode) /\ E.mode \in {"honest", "forged", "skip"}
              /\ (E.mode = "honest" => acc)
@@ -52,7 +63,11 @@ TValidate == /\ Ev("Validate") /\ phase = 1
              /\ (Canonical(cfg, cur) /\ Authorized(cfg, cur) /\ pend.intake /\ E.mode # "skip" => E.ok)
              /\ (E.ok => E.stored /\ EffectOf(cur, pend, E, cfg))
              /\ (~E.ok => ~E.stored /\ ~Changed(E, cfg))
-             /\ phase' = 0 /\ cur' = NoCase /\ acc' = FALSE /\ pend' = <<>> /\ UNCHANGED cfg
-TraceNext == TReset \/ TOffer \/ TValidate
-TraceSpec == l = 1 /\ cfg = <<>> /\ phase = 0 /\ cur = NoCase /\ acc = FALSE /\ pend = <<>> /\ [][TraceNext]_tvars
+             /\ phase' = 0 /\ cur' = NoCase /\ acc' = FALSE /\ pend' = <<>> /\ UNCHANGED <<cfg, scfg>>
+\* the head block becomes stable on both nodes: the account's signers of the stable state are the current ones
+TStabilise == /\ Ev("Stabilise") /\ phase = 0
+              /\ E.scfg = E.cfg
+              /\ scfg' = E.scfg /\ cfg' = E.cfg /\ UNCHANGED <<phase, cur, acc, pend>>
+TraceNext == TReset \/ TOffer \/ TOfferStale \/ TValidate \/ TStabilise
+TraceSpec == l = 1 /\ cfg = <<>> /\ scfg = <<>> /\ phase = 0 /\ cur = NoCase /\ acc = FALSE /\ pend = <<>> /\ [][TraceNext]_tvars
 ====
